@@ -1,11 +1,19 @@
 """C02 - the AArch64 assembler emits a correct encoding of every instruction it accepts.
 
 Shape I (input space): every form of the ISA database (db/isa_aarch64.json, dumped by tools/dump_isa.js) is instantiated
-with a default operand assignment plus every assignment with <= k deviations from per-slot alphabets (lib/a64cases.py),
-emitted through the public a64::Assembler API by harness/emit_a64 and judged by three legs (lib/a64ref.py):
-  (a) llvm-mc assembles the same instruction text -> the words must be equal;
-  (b) the db bit template: literal bits + register / simple immediate fields;
-  (c) refusal: accepted although the reference says "not encodable" -> "encoded as something else".
+with a default operand assignment plus every assignment with <= k deviations from per-slot alphabets (lib/a64cases.py;
+quick: k=2, thorough: the full product of the alphabets + a second pass with every register id and k=2), emitted through
+the public a64::Assembler API by harness/emit_a64 (one fresh CodeHolder per case) and judged by three legs (lib/a64ref.py):
+  (a) llvm-mc assembles the same instruction text -> the words must be equal            (clause word-mismatch)
+  (b) the db bit template: literal bits + register / simple immediate fields            (clause template-mismatch; only
+      decisive where llvm-mc has no verdict - a template that contradicts llvm-mc AND the assembler is a db slip)
+  (c) refusal: accepted although the reference says "not encodable"                      (clause accepted-unencodable[reason:slot])
+      reasons: badid (register id > 31: decisive alone), gp31 (SP where 31 means ZR or vice versa), imm / off / idx / shift /
+      arr / vm-range / pair (Arm ARM predicate in lib/a64cases.py) - these need llvm-mc to reject the text as well.
+MOV Rd,#imm and the AdvSIMD modified-immediate group are judged by the value the emitted word materialises.
+
+Violation keys:  a64:<mnemonic>:<db operand syntax>:<clause>      replay file: form index + slot choice (re-rendered).
+opts (./check C02 --opt k=v): k, k2 (deviation bounds of the two passes), forms=<regex on 'mnemonic:syntax'>, budget=<seconds>.
 """
 import os, re, subprocess, sys, time, json, tempfile, collections, multiprocessing
 
@@ -45,7 +53,7 @@ _SETUPS = {}
 
 
 def get_setup():
-    key = (ac.repo_dir(), os.getpid())
+    key = ac.repo_dir()          # forked pool workers inherit the parent's instance
     s = _SETUPS.get(key)
     if s is None:
         s = _SETUPS[key] = Setup()
@@ -227,7 +235,7 @@ def evaluate(setup, items, acc, llvm_known_hint=None):
         w = word_of(hx)
 
         # --- value legs for the two alias families with several legal encodings of one request
-        if "movimm" in c.flags and "badid" not in c.ev:
+        if "movimm" in c.flags and not ac.has_ev(c, "badid"):
             reg, val, size, single = c.flags["movimm"]
             eff = ar.mov_imm_effect(w)
             ok = False
@@ -243,12 +251,12 @@ def evaluate(setup, items, acc, llvm_known_hint=None):
                           "`%s` -> %08x which %s; requested: %s := %#x" % (c.emit, w, "writes %#x to register field %d (%s)" % (eff[2], eff[1], eff[0]) if eff else "is no MOVZ/MOVN/ORR-immediate",
                                                                           ac.gp_name("x" if size == 64 else "w", reg, False), val), replay_text(plan, c))
             continue
-        if "modimm" in c.flags and "badid" not in c.ev:
+        if "modimm" in c.flags and not ac.has_ev(c, "badid"):
             rq = c.flags["modimm"]
             eff = ar.modimm_effect(w)
             want_rd = next((x for f, x in c.expect if f in ("Vd", "Vx")), None)
             if rq is None:
-                acc.violation(kbase + "accepted-unencodable",
+                acc.violation(kbase + "accepted-unencodable[%s]" % (ac.primary_ev(c) or "imm"),
                               "`%s` (%s) was accepted and encoded as %08x although no MOVI/MVNI/ORR/BIC immediate encoding denotes these operands" % (c.emit, what, w),
                               replay_text(plan, c), w)
                 continue
@@ -276,12 +284,12 @@ def evaluate(setup, items, acc, llvm_known_hint=None):
 
         decided = False
         # --- refusal leg, part 1: a register id that does not exist can never be encoded
-        if "badid" in c.ev:
+        if ac.has_ev(c, "badid"):
             ids = re.findall(r"\b([wxbhsdqv])(\d+)\b", c.emit)
             if not any(int(n) > 31 and not (k in "wx" and int(n) == 63) for k, n in ids):
                 acc.errors.append("renderer self-check: '%s' is tagged badid but carries no invalid register id" % c.emit)
                 continue
-            acc.violation(kbase + "accepted-unencodable",
+            acc.violation(kbase + "accepted-unencodable[%s]" % ac.primary_ev(c),
                           "`%s` (%s) was accepted and encoded as %08x although a register id > 31 does not exist (the id was masked)" % (c.emit, what, w),
                           replay_text(plan, c), w)
             continue
@@ -316,7 +324,7 @@ def evaluate(setup, items, acc, llvm_known_hint=None):
         elif l_rej and plan.idx in known:
             # llvm-mc knows the instruction and rejects these operands
             if c.ev:
-                acc.violation(kbase + "accepted-unencodable",
+                acc.violation(kbase + "accepted-unencodable[%s]" % ac.primary_ev(c),
                               "`%s` (%s) was accepted and encoded as %08x; reference: not encodable (%s), llvm-mc: %s" % (c.emit, what, w, ",".join(c.ev), o[1]),
                               replay_text(plan, c), w)
                 continue
@@ -327,8 +335,8 @@ def evaluate(setup, items, acc, llvm_known_hint=None):
         else:
             # no verdict from llvm-mc (unknown instruction / no text): template leg alone
             acc.template_only.add(fkey)
-            if c.ev and "gp31" not in c.ev:
-                acc.violation(kbase + "accepted-unencodable",
+            if c.ev and not ac.has_ev(c, "gp31"):
+                acc.violation(kbase + "accepted-unencodable[%s]" % ac.primary_ev(c),
                               "`%s` (%s) was accepted and encoded as %08x; reference (Arm ARM / db field range): not encodable (%s)" % (c.emit, what, w, ",".join(c.ev)),
                               replay_text(plan, c), w)
                 continue
@@ -552,7 +560,7 @@ def replay(res, path, ctx):
     acc = Acc()
     items = [(plan, choice, True)]
     default = tuple([0] * len(plan.slots))
-    if default != choice and "badid" not in plan.render(choice).ev:
+    if default != choice and not ac.has_ev(plan.render(choice), "badid"):
         items.append((plan, default, False))      # only to learn whether llvm-mc knows the instruction
     evaluate(setup, items, acc)
     explicit = bool(ctx.get("replay"))            # the driver's confirmation replays do not need the disassembly
